@@ -362,9 +362,10 @@ def _forms(repo, col):
     # of such a sum with zero; `seg` is the local that holds the per-branch segment lengths
     seg = next((n_.targets[0].id for n_ in body if isinstance(n_, ast.Assign) and isinstance(n_.targets[0], ast.Name) and
                 isinstance(n_.value, ast.Call) and isinstance(n_.value.func, ast.Name) and n_.value.func.id == "_compute_pathlengths"), None)
-    i_len = stmt_index(lambda n_: isinstance(n_, ast.Assign) and n_.value is not None and
-                       any(isinstance(y, ast.Call) and unparse(y.func).split(".")[-1] == "sum" for y in ast.walk(n_.value)) and
-                       any(isinstance(y, ast.Name) and y.id == seg for y in ast.walk(n_.value)))
+    # (an assignment of a comprehension, or a loop that appends the sums: the top-level statement that sums over `seg`)
+    i_len = next((i_ for i_, st_ in enumerate(body)
+                  if any(isinstance(y, ast.Call) and unparse(y.func).split(".")[-1] == "sum" for y in ast.walk(st_)) and
+                  any(isinstance(y, ast.Name) and isinstance(y.ctx, ast.Load) and y.id == seg for y in ast.walk(st_))), None)
     i_zero = stmt_index(lambda n_: isinstance(n_, ast.Compare) and len(n_.ops) == 1 and isinstance(n_.ops[0], ast.Eq) and
                         isinstance(n_.comparators[0], ast.Constant) and n_.comparators[0].value in (0, 0.0))
     mutators = []
@@ -951,7 +952,8 @@ def _split(repo, col):
         elif s_.kind == "mcall" and s_.key.name == "append" and s_.value.op == "mcall" and len(s_.value.args) > 1:
             vals.append((s_.value.args[1], s_))
     is_root = lambda v: v.op == "unary" and v.name == "USub" and v.args[0].op == "const" and v.args[0].name == 1
-    st_par = [(v, s_) for v, s_ in vals if not is_root(v) and not (v.op == "const" and v.name is None)]
+    st_par = [(v, s_) for v, s_ in vals if not is_root(v) and not (v.op == "const" and v.name is None) and
+              T.find(v, lambda x: x.op in ("call", "mcall") and x.name in ("where", "nonzero", "flatnonzero", "index", "argmax")) is not None]
     st_root = [(v, s_) for v, s_ in vals if is_root(v)]
     ok = False
     detail = None
